@@ -70,11 +70,12 @@ pub fn run(args: &Args) {
     let out = args.str("out", &format!("{work}/mbt_trace.ndjson"));
     let first = args.num("first", 0);
     let reopen_every = args.num("reopen-every", 5);
+    let file_every = args.num("file-every", 1);
     let searches = args.num("searches", 0) == 1;
     let tx = args.num("tx", 0) == 1;
     let (mut n_tx, mut n_tx_rb) = (0u64, 0u64);
     let (mut n_search, mut n_search_nt) = (0u64, 0u64);
-    let kinds: Vec<Kind> = args.str("variants", "memory").split(',').map(|n| Kind::all().into_iter().find(|k| k.name() == n).expect("variant")).collect();
+    let kinds_all: Vec<Kind> = args.str("variants", "memory").split(',').map(|n| Kind::all().into_iter().find(|k| k.name() == n).expect("variant")).collect();
     std::fs::create_dir_all(&work).unwrap();
     std::panic::set_hook(Box::new(|_| {}));
     let mut trace = Trace::create(&out);
@@ -105,6 +106,8 @@ pub fn run(args: &Args) {
         }
       for (plan_name, plan) in plans {
         let mut dbs: Vec<(Kind, DbX, String)> = vec![];
+        // all requested variants in lock-step on every `file_every`-th history, the first variant alone otherwise
+        let kinds: Vec<Kind> = if run % file_every == 0 { kinds_all.clone() } else { vec![kinds_all[0]] };
         for k in &kinds {
             let path = format!("{work}/mbt_{run}_{}.agdb", k.name());
             remove_files(&path);
@@ -222,6 +225,6 @@ pub fn run(args: &Args) {
     trace.flush();
     println!("{}", serde_json::to_string(&json!({
         "histories": n_hist, "steps": n_steps, "steps_ok": n_ok, "steps_failed": n_fail, "reopened": n_reopen,
-        "aborted_runs": aborted, "transactions": n_tx, "transactions_rolled_back": n_tx_rb, "searches": n_search, "searches_nontrivial": n_search_nt, "distinct_step_events": distinct.len(), "trace_events": trace.events, "variants": kinds.len(),
+        "aborted_runs": aborted, "transactions": n_tx, "transactions_rolled_back": n_tx_rb, "searches": n_search, "searches_nontrivial": n_search_nt, "distinct_step_events": distinct.len(), "trace_events": trace.events, "variants": kinds_all.len(),
     })).unwrap());
 }
